@@ -64,6 +64,23 @@ CHECKS.update({
             GRID + "geographiclib Geodesic.WGS84.Inverse is the trusted geodesic", "DESIGN.md 4 C14"),
 })
 
+CHECKS.update({
+    "C01": ("Hypothesis generated search with a validity predicate + rule-based state machine (call histories) + A-B-A differential",
+            "Every test function is called on generated series (arbitrary finite float64 incl. 1e308 and subnormals, NaN/None/"
+            "masked, lengths 0-2 forced) under several carriers and must return one unmasked valid flag per element, leave "
+            "every argument byte-identical and repeat its answer; a Hypothesis RuleBasedStateMachine interleaves tests on a "
+            "pool of fixtures with other stateful corners of the package and requires history-independent results.",
+            "pressure_increasing_test / valid_range_test get float64 arrays only; strictly increasing whole-second axes",
+            "DESIGN.md 4 C01"),
+    "C02": ("Exhaustive enumeration of all 2^n missing-value placements (n<=8; joint value x auxiliary placements n<=5) + Hypothesis search; forward and converse predicates",
+            "For 10 tests, every placement of missing markers in the observation series (n<=8) and every joint placement in "
+            "(value, depth) / (lon, lat) (n<=5) is run over several value sequences and parameter families incl. every "
+            "climatology member shape, and longer generated series under None/NaN/masked carriers; a missing observation "
+            "must be MISSING (UNKNOWN only where the test is undefined anyway) and MISSING may only appear where a needed "
+            "input is missing.", "the table of needed inputs / undefined positions per test is read off the statement",
+            "DESIGN.md 4 C02"),
+})
+
 NOT_APPLICABLE = {}
 
 
